@@ -33,6 +33,7 @@ func runC12(c *Ctx) {
 	R.Rules["E6.predicate"] = "each response type is correlated by comparing the candidate serial with the field of the parsed response that echoes the platform serial (a predicate that ignores its argument completes another caller's request); 0x1003, which echoes nothing, may only complete an outstanding 0x9003"
 	R.Rules["E3.field"] = "the echoed-serial field of each response type is read from the wire at the standard's offset"
 	R.Rules["S.complete"] = "a completion is delivered to the reply channel of the recorded request and the record is deleted right after; a matched response carries the matched key; unmatched traffic falls through to the normal reply"
+	R.Rules["E5.timeout-capture"] = "the timeout goroutine of a command works on what was fixed when the command was written - captured values and the completion message built for that command - and on the connection's channels; it does not read the caller's ActiveMessage (which the writer re-stamps with a new serial when the caller sends it again) nor other mutable connection state after its wait"
 	R.Rules["E5.timeout"] = "see C13: a timeout goroutine is started for every duration >= 0"
 	var spec responsesSpec
 	if !c.loadSpec("responses.json", &spec) {
@@ -580,6 +581,7 @@ func runC12(c *Ctx) {
 		R.Add("S.complete", shortFn(writeFn)+" / traffic that is not a matched response falls through to the normal reply", c.P.RelPos(writeFn.Pos()), st, "when the response matcher returns false the writer does not reach defaultReplyEvent")
 	}
 	c.timeoutRule()
+	c.timeoutCapture(onActive)
 	R.Require("E6.predicate", 6, "")
 	R.Require("E3.field", 5, "")
 	R.Require("E3.command", 2, "")
@@ -655,4 +657,77 @@ func (c *Ctx) replyThenDelete() (nSends int, okDel bool, badDel []string) {
 		}
 	}
 	return
+}
+
+// timeoutCapture: goroutines started while a command is being written (the timeout timers) do not reach back into the
+// caller-owned ActiveMessage or into non-channel fields of the connection.
+func (c *Ctx) timeoutCapture(onActive *ssa.Function) {
+	R := c.R
+	nGo := 0
+	for _, f := range c.familyOf(onActive) {
+		for _, b := range f.Blocks {
+			for _, ins := range b.Instrs {
+				g, isGo := ins.(*ssa.Go)
+				if !isGo {
+					continue
+				}
+				var start *ssa.Function
+				if sc := g.Call.StaticCallee(); sc != nil {
+					start = sc
+				} else {
+					start = funcOfValue(g.Call.Value)
+				}
+				if start == nil || !c.P.IsRepoFunc(start) {
+					continue
+				}
+				nGo++
+				var bad []string
+				seen := map[*ssa.Function]bool{}
+				var scan func(fn *ssa.Function, depth int)
+				scan = func(fn *ssa.Function, depth int) {
+					if seen[fn] || depth > 3 || len(fn.Blocks) == 0 {
+						return
+					}
+					seen[fn] = true
+					for _, b2 := range fn.Blocks {
+						for _, i2 := range b2.Instrs {
+							switch x := i2.(type) {
+							case *ssa.FieldAddr:
+								n, okN := derefNamed(x.X.Type())
+								if !okN {
+									continue
+								}
+								ft := x.X.Type().Underlying().(*types.Pointer).Elem().Underlying().(*types.Struct).Field(x.Field)
+								switch n {
+								case "ActiveMessage":
+									bad = append(bad, fmt.Sprintf("%s touches %s of the caller's ActiveMessage at %s", shortFn(fn), ft.Name(), c.P.RelPos(x.Pos())))
+								case "connection":
+									if _, isCh := ft.Type().Underlying().(*types.Chan); !isCh {
+										bad = append(bad, fmt.Sprintf("%s touches the connection's %s at %s", shortFn(fn), ft.Name(), c.P.RelPos(x.Pos())))
+									}
+								}
+							case ssa.CallInstruction:
+								if sc := x.Common().StaticCallee(); sc != nil && c.P.IsRepoFunc(sc) && pkgOf(sc) == pkgOf(onActive) {
+									scan(sc, depth+1)
+								}
+							}
+						}
+					}
+					for _, an := range fn.AnonFuncs {
+						scan(an, depth+1)
+					}
+				}
+				scan(start, 0)
+				st, d := report.Discharged, ""
+				if len(bad) > 0 {
+					st = report.Violated
+					d = strings.Join(dedupe(bad), "; ") + ": by the time the timer fires the caller may have sent the same ActiveMessage again (new serial, new data) - the timer of the earlier send then completes the later one early, and the response to it matches nothing"
+				}
+				R.Add("E5.timeout-capture", fmt.Sprintf("%s / %s", shortFn(f), c.constructOf(f, g)), c.P.RelPos(g.Pos()), st, d)
+			}
+		}
+	}
+	if nGo == 0 {
+		R.Add("E5.timeout-capture", shortFn(onActive)+" / (no goroutine started)", c.P.RelPos(onActive.Pos()), report.Discharged, "no timer goroutine is started from the command path on this tree (see E5.timeout)")
+	}
 }
